@@ -199,6 +199,30 @@ def run(ctx):
                 ctx.violation({'kind': 'scalar-or-vector-operand', 'op': name}, {'spectrum': sj, 'other': other}, case=None)
         if sp.state_digest(s) != d0:
             ctx.violation({'kind': 'operand-modified', 'op': 'scalar'}, {'spectrum': sj}, case=None)
+    # quadratic / cubic interpolation is outside the model: only the relational clauses (commutativity, independence of the unit
+    # the operands are written in, operands untouched) are checked, on nested ranges whose ends are exact in every unit used
+    nrel = 0
+    for _ in range(60):
+        n1, n2 = rng.randint(5, 8), rng.randint(5, 8)
+        w1 = [Fr(400 + 2 * k) for k in range(n1)]
+        w2 = [Fr(402 + k) for k in range(min(n2, 2 * n1 - 3))]
+        v1 = [Fr(rng.randint(1, 16), 4) for _ in w1]
+        v2 = [Fr(rng.randint(1, 16), 4) for _ in w2]
+        method = rng.choice(('quadratic', 'cubic'))
+        op = rng.choice(('add', 'multiply'))
+        a_nm, b_nm = make_real(lentil, w1, v1, 'nm'), make_real(lentil, w2, v2, 'nm')
+        ref = getattr(a_nm, op)(b_nm, method=method)
+        rev = getattr(b_nm, op)(a_nm, method=method)
+        nrel += 1
+        ctx.case(('relational', method, op, str(w1), str(w2)))
+        if len(ref.wave) != len(rev.wave) or not np.allclose(ref.wave, rev.wave, rtol=1e-12) or not np.allclose(ref.value, rev.value, rtol=1e-9, atol=1e-12):
+            ctx.violation({'kind': 'not-commutative', 'method': method, 'op': op}, {'w1': [float(x) for x in w1], 'w2': [float(x) for x in w2]}, case=None)
+        for u in ('angstrom',):                        # nm -> angstrom is exact in floating point (x10)
+            a_u, b_u = make_real(lentil, w1, v1, u), make_real(lentil, w2, v2, u)
+            ru = getattr(a_u, op)(b_u, method=method)
+            if len(ru.wave) != len(ref.wave) or not np.allclose(ru.wave / 10.0, ref.wave, rtol=1e-12) or not np.allclose(ru.value, ref.value, rtol=1e-8, atol=1e-10):
+                ctx.violation({'kind': 'unit-dependent', 'method': method, 'op': op}, {'w1': [float(x) for x in w1], 'w2': [float(x) for x in w2]}, case=None)
+    ctx.extra['relational_cases_for_spline_interpolation'] = nrel
     ctx.traces += len(cases)
     ctx.skipped['exact float ties at operand range ends'] = nties
     ctx.sample({'case': cases[0], 'expected_by_TLC': exp[0]}, maxn=1)
